@@ -431,6 +431,28 @@ func init() {
 	for k, f := range atomicIntrinsics() {
 		add(k, f)
 	}
+	// sync/atomic.Value: a struct with one interface field; every access is synchronised by construction
+	valCell := func(m *Machine, a []Value) *Cell {
+		p, ok := a[0].(PtrV)
+		if !ok || p.c == nil || len(p.c.kids) < 1 {
+			m.unsupported("atomic.Value through nil/symbolic pointer")
+		}
+		return p.c.kids[0]
+	}
+	add("(*sync/atomic.Value).Load", func(m *Machine, a []Value, _ *frame) Value { return m.loadCell(valCell(m, a)) })
+	add("(*sync/atomic.Value).Store", func(m *Machine, a []Value, _ *frame) Value {
+		if iv, ok := a[1].(IfaceV); ok && iv.t == nil {
+			m.goPanic("sync/atomic: store of nil value into Value")
+		}
+		m.syncStore(PtrV{c: valCell(m, a)}, a[1])
+		return nil
+	})
+	add("(*sync/atomic.Value).Swap", func(m *Machine, a []Value, _ *frame) Value {
+		c := valCell(m, a)
+		old := m.loadCell(c)
+		m.syncStore(PtrV{c: c}, a[1])
+		return old
+	})
 }
 
 var syncIntrinsics = map[string]intrFn{}
